@@ -67,9 +67,13 @@
         res.counted(),
         // (the change set as a function of the two data sets; used by C12)
         res.items@ == diff(deref_seq(old_iter.remaining()), deref_seq(new_iter.remaining())),
+        // both iterators are run to completion: the data sets above are all they had to yield
+        old_iter.will_return_none() && new_iter.will_return_none(),
 //@ entry
     let ghost O = deref_seq(old_iter.remaining());
     let ghost N = deref_seq(new_iter.remaining());
+    let ghost wo0 = old_iter.will_return_none();
+    let ghost wn0 = new_iter.will_return_none();
 //@ beforeloop 1
     proof {
         assert(rest(opt_old, old_iter.remaining()) =~= O);
@@ -79,16 +83,19 @@
         invariant_except_break
             diff(O, N) == items.items@ + diff(rest(opt_old, old_iter.remaining()), rest(opt_new, new_iter.remaining())),
             items.items@.len() + rest(opt_old, old_iter.remaining()).len() + rest(opt_new, new_iter.remaining()).len() <= usize::MAX,
+            old_iter.will_return_none() == wo0,
+            new_iter.will_return_none() == wn0,
         invariant
             clone_exact::<P>(),
             P::obeys_cmp_spec(),
             old_iter.obeys_prophetic_iter_laws(), old_iter.decrease() is Some,
             new_iter.obeys_prophetic_iter_laws(), new_iter.decrease() is Some,
-            opt_old is None ==> old_iter.remaining().len() == 0,
-            opt_new is None ==> new_iter.remaining().len() == 0,
+            opt_old is None ==> old_iter.remaining().len() == 0 && old_iter.will_return_none(),
+            opt_new is None ==> new_iter.remaining().len() == 0 && new_iter.will_return_none(),
             items.counted(),
         ensures
             items.items@ =~= diff(O, N),
+            wo0 && wn0,
         decreases
             (if opt_old is Some { 1 + old_iter.decrease()->Some_0 } else { 0 })
             + (if opt_new is Some { 1 + new_iter.decrease()->Some_0 } else { 0 }),
@@ -114,18 +121,16 @@
     }
 //@ closure 1
 |x: &'a P| -> (r: (P, Action)) ensures r == (*x, Action::Announce)
-//@ closurecall 1
+//@ closurecall 1 via iter_map
                         proof {
-                            vstd::std_specs::iter::map_postcondition(new_iter, __c1, __r1);
-                            assert(FnW::<&'a P, (P, Action)>::w(&__c1));
+                            assert(FnW::<&'a P, (P, Action)>::w(&vstd::std_specs::iter::map_fun(__r1)));
                             assert(__r1.will_return_none() ==> __r1.remaining() =~= ann(deref_seq(new_iter.remaining())));
                         }
 //@ closure 2
 |x: &'a P| -> (r: (P, Action)) ensures r == (*x, Action::Withdraw)
-//@ closurecall 2
+//@ closurecall 2 via iter_map
                         proof {
-                            vstd::std_specs::iter::map_postcondition(old_iter, __c2, __r2);
-                            assert(FnW::<&'a P, (P, Action)>::w(&__c2));
+                            assert(FnW::<&'a P, (P, Action)>::w(&vstd::std_specs::iter::map_fun(__r2)));
                             assert(__r2.will_return_none() ==> __r2.remaining() =~= wdr(deref_seq(old_iter.remaining())));
                         }
 //@ fn StandardDelta::merge
@@ -253,27 +258,39 @@
         asorted(firsts(new_iter.remaining())),
         old_iter.remaining().len() + new_iter.remaining().len() <= usize::MAX,
     ensures
+        // C11: per customer, the change set says exactly what changed: nothing if the ASPA is unchanged,
+        // a withdrawal if the customer disappeared, an announcement if it is new, an update (carrying the
+        // old providers) if only the provider set changed; one entry per customer, in customer order
+        adescribes(res.items@, firsts(old_iter.remaining()), firsts(new_iter.remaining())),
+        // C11: it is empty exactly when the two data sets are equal
+        res.items@.len() == 0 <==> firsts(old_iter.remaining()) == firsts(new_iter.remaining()),
+        // C11: applying it to the old data set yields the new data set
+        aspa_applying_yields(firsts(old_iter.remaining()), res.items@, firsts(new_iter.remaining())),
         // C11: counts match the listed actions
         res.counted(),
-        // (the change set as a function of the two data sets)
+        // (the change set as a function of the two data sets; used by C12)
         res.items@ == adiff(firsts(old_iter.remaining()), firsts(new_iter.remaining())),
+        // both iterators are run to completion: the data sets above are all they had to yield
+        old_iter.will_return_none() && new_iter.will_return_none(),
 //@ entry
     let ghost PO = old_iter.remaining();
     let ghost PN = new_iter.remaining();
+    let ghost pwo = old_iter.will_return_none();
+    let ghost pwn = new_iter.will_return_none();
 //@ closure 1
 |__cp1: (&'a Aspa, &'a PayloadInfo)| -> (r: &'a Aspa) ensures r == __cp1.0
-//@ closurecall 1
+//@ closurecall 1 via iter_map
         proof {
-            vstd::std_specs::iter::map_postcondition(old_iter, __c1, __r1);
-            assert(FnW::<(&'a Aspa, &'a PayloadInfo), &'a Aspa>::w(&__c1));
+            assert(__r1.will_return_none() ==> pwo);
+            assert(FnW::<(&'a Aspa, &'a PayloadInfo), &'a Aspa>::w(&vstd::std_specs::iter::map_fun(__r1)));
             assert(__r1.will_return_none() ==> deref_seq(__r1.remaining()) =~= firsts(PO));
         }
 //@ closure 2
 |__cp1: (&'a Aspa, &'a PayloadInfo)| -> (r: &'a Aspa) ensures r == __cp1.0
-//@ closurecall 2
+//@ closurecall 2 via iter_map
         proof {
-            vstd::std_specs::iter::map_postcondition(new_iter, __c2, __r2);
-            assert(FnW::<(&'a Aspa, &'a PayloadInfo), &'a Aspa>::w(&__c2));
+            assert(__r2.will_return_none() ==> pwn);
+            assert(FnW::<(&'a Aspa, &'a PayloadInfo), &'a Aspa>::w(&vstd::std_specs::iter::map_fun(__r2)));
             assert(__r2.will_return_none() ==> deref_seq(__r2.remaining()) =~= firsts(PN));
         }
 //@ beforeloop 1
@@ -285,6 +302,8 @@
         lemma_rest_all::<Aspa>();
         assert(wo0 ==> O =~= firsts(PO));
         assert(wn0 ==> N =~= firsts(PN));
+        assert(wo0 ==> pwo);
+        assert(wn0 ==> pwn);
         assert(O.len() <= PO.len());
         assert(N.len() <= PN.len());
     }
@@ -329,14 +348,196 @@
                 assert(items0 + adiff(ro0, rn0)
                     =~= items.items@ + adiff(rest(opt_old, old_iter.remaining()), rest(opt_new, new_iter.remaining())));
             }
+//@ afterloop 1
+    proof {
+        assert(O == firsts(PO) && N == firsts(PN));
+        lemma_adiff_describes(O, N);
+        lemma_adescribes_empty_iff_equal(items.items@, O, N);
+        lemma_adescribes_apply(items.items@, O, N);
+    }
 //@ closure 3
 |x: &'a Aspa| -> (r: (Aspa, AspaAction)) ensures r == (*x, AspaAction::Announce)
-//@ closurecall 3
+//@ closurecall 3 via iter_map
                     proof {
-                        vstd::std_specs::iter::map_postcondition(new_iter, __c3, __r3);
-                        assert(FnW::<&'a Aspa, (Aspa, AspaAction)>::w(&__c3));
+                        assert(FnW::<&'a Aspa, (Aspa, AspaAction)>::w(&vstd::std_specs::iter::map_fun(__r3)));
                         assert(__r3.will_return_none() ==> __r3.remaining() =~= aann(deref_seq(new_iter.remaining())));
                     }
+//@ fn AspaDelta::merge
+//@ envcall clone clone_pair item old_item new_item
+//@ envcall cloned iter_cloned_pairs
+//@ spec
+    requires
+        total_order::<Asn>(),
+        // derive(Clone) on AspaAction returns an equal value (its only fields are ProviderAsns)
+        clone_exact::<AspaAction>(),
+        old.items@.len() + new.items@.len() <= usize::MAX,
+    ensures
+        // C12: if `old` is the change set from data set a to data set b and `new` the one from b to c,
+        // the result is the change set from a to c: same entries, same order
+        forall|a: Seq<Aspa>, b: Seq<Aspa>, c: Seq<Aspa>|
+            asorted(a) && asorted(c)
+            && #[trigger] adescribes(old.items@, a, b) && #[trigger] adescribes(new.items@, b, c)
+            ==> res.items@ == adiff(a, c) && adescribes(res.items@, a, c),
+        // C12: counts match the listed actions
+        res.counted(),
+        res.items@ == amrg(old.items@, new.items@),
+//@ entry
+    let ghost X = old.items@;
+    let ghost Y = new.items@;
+//@ beforeloop 1
+    proof {
+        assert(rest(opt_old, old_iter.remaining()) =~= X);
+        assert(rest(opt_new, new_iter.remaining()) =~= Y);
+    }
+//@ loop 1
+        invariant_except_break
+            amrg(X, Y) == items.items@ + amrg(rest(opt_old, old_iter.remaining()), rest(opt_new, new_iter.remaining())),
+            items.items@.len() + rest(opt_old, old_iter.remaining()).len() + rest(opt_new, new_iter.remaining()).len() <= usize::MAX,
+        invariant
+            clone_exact::<AspaAction>(),
+            Asn::obeys_cmp_spec(),
+            old_iter.obeys_prophetic_iter_laws(), old_iter.decrease() is Some,
+            new_iter.obeys_prophetic_iter_laws(), new_iter.decrease() is Some,
+            opt_old is None ==> old_iter.remaining().len() == 0,
+            opt_new is None ==> new_iter.remaining().len() == 0,
+            items.counted(),
+        ensures
+            items.items@ =~= amrg(X, Y),
+        decreases
+            (if opt_old is Some { 1 + old_iter.decrease()->Some_0 } else { 0 })
+            + (if opt_new is Some { 1 + new_iter.decrease()->Some_0 } else { 0 }),
+//@ loopentry 1
+            let ghost items0 = items.items@;
+            let ghost ro0 = rest(opt_old, old_iter.remaining());
+            let ghost rn0 = rest(opt_new, new_iter.remaining());
+            proof {
+                lemma_amrg_unfold(ro0, rn0);
+                lemma_rest(opt_old, old_iter.remaining());
+                lemma_rest(opt_new, new_iter.remaining());
+            }
+//@ afterloop 1
+    proof {
+        assert forall|a: Seq<Aspa>, b: Seq<Aspa>, c: Seq<Aspa>|
+            asorted(a) && asorted(c)
+            && #[trigger] adescribes(X, a, b) && #[trigger] adescribes(Y, b, c)
+            implies items.items@ == adiff(a, c) && adescribes(items.items@, a, c) by {
+            lemma_amrg_describes(X, Y, a, b, c);
+            lemma_adiff_describes(a, c);
+            lemma_adescribes_unique(items.items@, adiff(a, c), a, c);
+        }
+    }
+//@ loopend 1
+            proof {
+                assert(items0 + amrg(ro0, rn0)
+                    =~= items.items@ + amrg(rest(opt_old, old_iter.remaining()), rest(opt_new, new_iter.remaining())));
+            }
+//@ fn PayloadDelta::empty
+//@ spec
+    ensures
+        res.serial == serial,
+        res.is_empty_spec(),
+        res.counted(),
+        // C11/C12: the empty change set is the change from any data set to itself
+        forall|s: &PayloadSnapshot| #[trigger] res.describes(s, s),
+//@ fn PayloadDelta::is_empty
+//@ spec
+    ensures res == self.is_empty_spec(),
+//@ fn PayloadDelta::serial
+//@ spec
+    ensures res == self.serial,
+//@ fn PayloadDelta::announce_len
+//@ spec
+    requires
+        self.counted(),
+        self.origins.items@.len() + self.router_keys.items@.len() + self.aspas.items@.len() <= usize::MAX,
+    ensures
+        // C11: the count of announcements is the number of Announce (and ASPA Update) entries listed
+        res == cnt(self.origins.items@, Action::Announce) + cnt(self.router_keys.items@, Action::Announce)
+            + acnt(self.aspas.items@, false),
+//@ entry
+    proof {
+        lemma_cnt_total(self.origins.items@);
+        lemma_cnt_total(self.router_keys.items@);
+        lemma_acnt_total(self.aspas.items@);
+    }
+//@ fn PayloadDelta::withdraw_len
+//@ spec
+    requires
+        self.counted(),
+        self.origins.items@.len() + self.router_keys.items@.len() + self.aspas.items@.len() <= usize::MAX,
+    ensures
+        // C11: the count of withdrawals is the number of Withdraw entries listed
+        res == cnt(self.origins.items@, Action::Withdraw) + cnt(self.router_keys.items@, Action::Withdraw)
+            + acnt(self.aspas.items@, true),
+//@ entry
+    proof {
+        lemma_cnt_total(self.origins.items@);
+        lemma_cnt_total(self.router_keys.items@);
+        lemma_acnt_total(self.aspas.items@);
+    }
+//@ fn PayloadDelta::merge
+//@ spec
+    requires
+        payload_types_ok(),
+        self.origins.items@.len() + new.origins.items@.len() <= usize::MAX,
+        self.router_keys.items@.len() + new.router_keys.items@.len() <= usize::MAX,
+        self.aspas.items@.len() + new.aspas.items@.len() <= usize::MAX,
+    ensures
+        // C12: the merged change set carries the serial of the newer one
+        res.serial == new.serial,
+        // C12: if `self` is the change from data set a to b and `new` the change from b to c, the
+        // result is the change from a to c (all three payload types; entries and order)
+        forall|a: &PayloadSnapshot, b: &PayloadSnapshot, c: &PayloadSnapshot|
+            snap_sorted(a) && snap_sorted(c) && #[trigger] self.describes(a, b) && #[trigger] new.describes(b, c)
+            ==> res.describes(a, c),
+        res.counted(),
+//@ fn PayloadDelta::construct
+//@ spec
+    requires
+        payload_types_ok(),
+        snap_sorted(old), snap_sorted(new),
+        old.origins_spec().len() + new.origins_spec().len() <= usize::MAX,
+        old.router_keys_spec().len() + new.router_keys_spec().len() <= usize::MAX,
+        old.aspas_spec().len() + new.aspas_spec().len() <= usize::MAX,
+    ensures
+        // C11: no change set is produced exactly when the two data sets are equal
+        res is None <==> (old.origins_spec() == new.origins_spec()
+            && old.router_keys_spec() == new.router_keys_spec() && old.aspas_spec() == new.aspas_spec()),
+        // C11: otherwise it is exactly the change from old to new (all three payload types), it is not
+        // empty, its counters match its entries, and its serial is the given one plus one
+        res matches Some(d) ==> d.describes(old, new) && !d.is_empty_spec() && d.counted()
+            && d.serial.0 == wadd(serial.0, 1)
+            && applying_yields(old.origins_spec(), d.origins.items@, new.origins_spec())
+            && applying_yields(old.router_keys_spec(), d.router_keys.items@, new.router_keys_spec())
+            && aspa_applying_yields(old.aspas_spec(), d.aspas.items@, new.aspas_spec()),
+//@ closure 1
+|item| -> (r: &RouteOrigin) ensures r == item.0
+//@ closurecall 1 via iter_map
+                proof {
+                    lemma_map_prefix(__i1.remaining(), __r1.remaining(), old.origins_spec());
+                    assert(__r1.will_return_none() ==> deref_seq(__r1.remaining()) =~= old.origins_spec());
+                }
+//@ closure 2
+|item| -> (r: &RouteOrigin) ensures r == item.0
+//@ closurecall 2 via iter_map
+                proof {
+                    lemma_map_prefix(__i2.remaining(), __r2.remaining(), new.origins_spec());
+                    assert(__r2.will_return_none() ==> deref_seq(__r2.remaining()) =~= new.origins_spec());
+                }
+//@ closure 3
+|item| -> (r: &RouterKey) ensures r == item.0
+//@ closurecall 3 via iter_map
+                proof {
+                    lemma_map_prefix(__i3.remaining(), __r3.remaining(), old.router_keys_spec());
+                    assert(__r3.will_return_none() ==> deref_seq(__r3.remaining()) =~= old.router_keys_spec());
+                }
+//@ closure 4
+|item| -> (r: &RouterKey) ensures r == item.0
+//@ closurecall 4 via iter_map
+                proof {
+                    lemma_map_prefix(__i4.remaining(), __r4.remaining(), new.router_keys_spec());
+                    assert(__r4.will_return_none() ==> deref_seq(__r4.remaining()) =~= new.router_keys_spec());
+                }
 //@ global
 // ---------------------------------------------------------------- order and clone assumptions on P
 spec fn lt<P: Ord>(a: P, b: P) -> bool { a.cmp_spec(&b) == Ordering::Less }
@@ -353,10 +554,33 @@ spec fn total_order<P: Ord>() -> bool {
 // `Clone for P` returns an equal value
 spec fn clone_exact<P: Clone>() -> bool { forall|a: &P, b: P| #[trigger] call_ensures(P::clone, (a,), b) ==> *a == b }
 
-// device: makes the solver see that a closure literal implements Fn (needed for the
+// device: makes the solver see that a closure literal implements FnMut (needed for the
 // Map adapter's iterator laws in a generic function); proves nothing by itself
 trait FnW<A, B> { spec fn w(&self) -> bool; }
-impl<A, B, F: Fn(A) -> B> FnW<A, B> for F { spec fn w(&self) -> bool { true } }
+impl<A, B, F: FnMut(A) -> B> FnW<A, B> for F { spec fn w(&self) -> bool { true } }
+
+
+// `i.map(f)` with everything vstd knows about the result stated as a postcondition (vstd states
+// it in a broadcast lemma, map_postcondition, that the solver cannot instantiate for a closure
+// literal). Rewrite R15 routes the `.map(<closure>)` calls of the functions below through this
+// verified wrapper; its body is the call itself.
+fn iter_map<I: Iterator, B, F: FnMut(I::Item) -> B>(i: I, f: F) -> (r: std::iter::Map<I, F>)
+    requires
+        i.obeys_prophetic_iter_laws(),
+        forall|k: int| 0 <= k < i.remaining().len() ==> f.requires((#[trigger] i.remaining()[k],)),
+    ensures
+        r.obeys_prophetic_iter_laws(),
+        (r.decrease() is Some) == (i.decrease() is Some),
+        r.remaining().len() <= i.remaining().len(),
+        forall|k: int| 0 <= k < r.remaining().len() ==> f.ensures((i.remaining()[k],), #[trigger] r.remaining()[k]),
+        r.will_return_none() ==> i.will_return_none() && r.remaining().len() == i.remaining().len(),
+        vstd::std_specs::iter::map_iter(r) == i,
+        vstd::std_specs::iter::map_fun(r) == f,
+{
+    let r = i.map(f);
+    proof { vstd::std_specs::iter::map_postcondition(i, f, r); }
+    r
+}
 
 // ---------------------------------------------------------------- sequences
 spec fn ssorted<P: Ord>(s: Seq<P>) -> bool { forall|i: int, j: int| 0 <= i < j < s.len() ==> lt(s[i], s[j]) }
@@ -1091,7 +1315,7 @@ impl AspaDelta {
 // a data set of ASPAs is sorted strictly by customer ASN (one ASPA per customer)
 spec fn asorted(s: Seq<Aspa>) -> bool { forall|i: int, j: int| 0 <= i < j < s.len() ==> lt(s[i].customer, s[j].customer) }
 
-spec fn firsts(s: Seq<(&Aspa, &PayloadInfo)>) -> Seq<Aspa> { s.map_values(|x: (&Aspa, &PayloadInfo)| *x.0) }
+spec fn firsts(s: Seq<(&Aspa, &PayloadInfo)>) -> Seq<Aspa> { pair_firsts::<Aspa>(s) }
 spec fn aann(s: Seq<Aspa>) -> Seq<(Aspa, AspaAction)> { s.map_values(|x: Aspa| (x, AspaAction::Announce)) }
 spec fn awdr(s: Seq<Aspa>) -> Seq<(Aspa, AspaAction)> { s.map_values(|x: Aspa| (wd(x), AspaAction::Withdraw(x.providers))) }
 
@@ -1135,4 +1359,693 @@ proof fn lemma_adiff_unfold(o: Seq<Aspa>, n: Seq<Aspa>)
         o.len() > 0 && n.len() > 0 && o[0].customer.cmp_spec(&n[0].customer) == Ordering::Greater ==>
             adiff(o, n) == seq![(n[0], AspaAction::Announce)] + adiff(o, n.drop_first()),
 {
+}
+// ---------------------------------------------------------------- C11 for ASPAs, per customer ASN
+// the ASPA a data set holds for customer k
+spec fn afind(s: Seq<Aspa>, k: Asn) -> Option<Aspa>
+    decreases s.len()
+{
+    if s.len() == 0 { None } else if s[0].customer == k { Some(s[0]) } else { afind(s.drop_first(), k) }
+}
+
+// the entry a change set holds for customer k
+spec fn dfind(d: Seq<(Aspa, AspaAction)>, k: Asn) -> Option<(Aspa, AspaAction)>
+    decreases d.len()
+{
+    if d.len() == 0 { None } else if d[0].0.customer == k { Some(d[0]) } else { dfind(d.drop_first(), k) }
+}
+
+// C11: what the change set must say about a customer, given the ASPA the old and the new data set hold
+// for it: nothing if unchanged, a withdrawal (carrying the old providers) if it disappeared, an
+// announcement if it is new, an update (carrying the old providers) if the provider set changed
+spec fn aspa_change(o: Option<Aspa>, n: Option<Aspa>) -> Option<(Aspa, AspaAction)> {
+    match (o, n) {
+        (None, None) => None,
+        (Some(a), None) => Some((wd(a), AspaAction::Withdraw(a.providers))),
+        (None, Some(b)) => Some((b, AspaAction::Announce)),
+        (Some(a), Some(b)) => if a.providers == b.providers { None } else { Some((b, AspaAction::Update(a.providers))) },
+    }
+}
+
+spec fn dkeys_sorted(d: Seq<(Aspa, AspaAction)>) -> bool {
+    forall|i: int, j: int| 0 <= i < j < d.len() ==> lt(d[i].0.customer, d[j].0.customer)
+}
+
+// C11: `d` is, in customer order and with one entry per customer, exactly the change from o to n
+spec fn adescribes(d: Seq<(Aspa, AspaAction)>, o: Seq<Aspa>, n: Seq<Aspa>) -> bool {
+    &&& dkeys_sorted(d)
+    &&& forall|k: Asn| #[trigger] dfind(d, k) == aspa_change(afind(o, k), afind(n, k))
+}
+
+proof fn lemma_afind_some(s: Seq<Aspa>, k: Asn)
+    ensures afind(s, k) matches Some(x) ==> x.customer == k && s.contains(x),
+    decreases s.len(),
+{
+    if s.len() > 0 {
+        if s[0].customer == k { assert(s.contains(s[0])); }
+        else {
+            lemma_afind_some(s.drop_first(), k);
+            if let Some(x) = afind(s.drop_first(), k) { lemma_contains_first(s, x); }
+        }
+    }
+}
+
+proof fn lemma_dfind_some(d: Seq<(Aspa, AspaAction)>, k: Asn)
+    ensures dfind(d, k) matches Some(e) ==> e.0.customer == k && d.contains(e),
+    decreases d.len(),
+{
+    if d.len() > 0 {
+        if d[0].0.customer == k { assert(d.contains(d[0])); }
+        else {
+            lemma_dfind_some(d.drop_first(), k);
+            if let Some(e) = dfind(d.drop_first(), k) { lemma_contains_first(d, e); }
+        }
+    }
+}
+
+proof fn lemma_asorted_tail(s: Seq<Aspa>)
+    requires total_order::<Asn>(), asorted(s), s.len() > 0,
+    ensures
+        asorted(s.drop_first()),
+        forall|x: Aspa| #[trigger] s.drop_first().contains(x) ==> lt(s[0].customer, x.customer),
+        afind(s.drop_first(), s[0].customer) is None,
+{
+    let t = s.drop_first();
+    assert forall|i: int, j: int| 0 <= i < j < t.len() implies lt(t[i].customer, t[j].customer) by {
+        assert(t[i] == s[i + 1] && t[j] == s[j + 1]);
+    }
+    assert forall|x: Aspa| #[trigger] t.contains(x) implies lt(s[0].customer, x.customer) by {
+        let i = choose|i: int| 0 <= i < t.len() && t[i] == x;
+        assert(t[i] == s[i + 1]);
+    }
+    lemma_afind_some(t, s[0].customer);
+    if let Some(x) = afind(t, s[0].customer) {
+        assert(lt(s[0].customer, x.customer));
+        lemma_lt_asym(s[0].customer, x.customer);
+    }
+}
+
+// a customer below the first one is not in a sorted data set
+proof fn lemma_afind_below(s: Seq<Aspa>, k: Asn)
+    requires total_order::<Asn>(), asorted(s), s.len() > 0, lt(k, s[0].customer),
+    ensures afind(s, k) is None,
+{
+    lemma_afind_some(s, k);
+    if let Some(x) = afind(s, k) {
+        lemma_contains_first(s, x);
+        lemma_asorted_tail(s);
+        if x == s[0] { lemma_lt_asym(k, s[0].customer); }
+        else { assert(lt(s[0].customer, x.customer)); lemma_lt_asym(k, s[0].customer); }
+    }
+}
+
+// a customer found in a sorted data set is at or above the first customer
+proof fn lemma_afind_bound(s: Seq<Aspa>, k: Asn)
+    requires total_order::<Asn>(), asorted(s), s.len() > 0, afind(s, k) is Some,
+    ensures k == s[0].customer || lt(s[0].customer, k),
+{
+    lemma_afind_some(s, k);
+    let x = afind(s, k)->Some_0;
+    lemma_contains_first(s, x);
+    lemma_asorted_tail(s);
+}
+
+proof fn lemma_dfind_cons(e: (Aspa, AspaAction), d: Seq<(Aspa, AspaAction)>, k: Asn)
+    ensures dfind(seq![e] + d, k) == (if e.0.customer == k { Some(e) } else { dfind(d, k) }),
+{
+    assert((seq![e] + d).drop_first() =~= d);
+}
+
+proof fn lemma_dfind_aann(n: Seq<Aspa>, k: Asn)
+    ensures dfind(aann(n), k) == aspa_change(None, afind(n, k)),
+    decreases n.len(),
+{
+    if n.len() > 0 {
+        lemma_dfind_aann(n.drop_first(), k);
+        assert(aann(n).drop_first() =~= aann(n.drop_first()));
+    }
+}
+
+proof fn lemma_dfind_awdr(o: Seq<Aspa>, k: Asn)
+    ensures dfind(awdr(o), k) == aspa_change(afind(o, k), None),
+    decreases o.len(),
+{
+    if o.len() > 0 {
+        lemma_dfind_awdr(o.drop_first(), k);
+        assert(awdr(o).drop_first() =~= awdr(o.drop_first()));
+    }
+}
+
+// an entry of a key-sorted change set is the entry found for its customer, and vice versa
+proof fn lemma_dfind_contains(d: Seq<(Aspa, AspaAction)>, e: (Aspa, AspaAction))
+    requires total_order::<Asn>(), dkeys_sorted(d),
+    ensures d.contains(e) <==> dfind(d, e.0.customer) == Some(e),
+    decreases d.len(),
+{
+    lemma_dfind_some(d, e.0.customer);
+    if d.len() > 0 {
+        let t = d.drop_first();
+        assert forall|i: int, j: int| 0 <= i < j < t.len() implies lt(t[i].0.customer, t[j].0.customer) by {
+            assert(t[i] == d[i + 1] && t[j] == d[j + 1]);
+        }
+        lemma_dfind_contains(t, e);
+        lemma_contains_first(d, e);
+        if d[0].0.customer == e.0.customer && t.contains(e) {
+            let i = choose|i: int| 0 <= i < t.len() && t[i] == e;
+            assert(t[i] == d[i + 1]);
+            assert(lt(d[0].0.customer, d[i + 1].0.customer));
+            lemma_lt_asym(d[0].0.customer, e.0.customer);
+        }
+    }
+}
+
+proof fn lemma_adiff_describes(o: Seq<Aspa>, n: Seq<Aspa>)
+    requires total_order::<Asn>(), asorted(o), asorted(n),
+    ensures adescribes(adiff(o, n), o, n),
+    decreases o.len() + n.len(),
+{
+    let d = adiff(o, n);
+    if o.len() == 0 {
+        assert forall|i: int, j: int| 0 <= i < j < d.len() implies lt(d[i].0.customer, d[j].0.customer) by {
+            assert(d[i].0 == n[i] && d[j].0 == n[j]);
+        }
+        assert forall|k: Asn| #[trigger] dfind(d, k) == aspa_change(afind(o, k), afind(n, k)) by {
+            lemma_dfind_aann(n, k);
+        }
+    } else if n.len() == 0 {
+        assert forall|i: int, j: int| 0 <= i < j < d.len() implies lt(d[i].0.customer, d[j].0.customer) by {
+            assert(d[i].0 == wd(o[i]) && d[j].0 == wd(o[j]));
+        }
+        assert forall|k: Asn| #[trigger] dfind(d, k) == aspa_change(afind(o, k), afind(n, k)) by {
+            lemma_dfind_awdr(o, k);
+        }
+    } else {
+        let o1 = o.drop_first();
+        let n1 = n.drop_first();
+        lemma_asorted_tail(o);
+        lemma_asorted_tail(n);
+        match o[0].customer.cmp_spec(&n[0].customer) {
+            Ordering::Less => {
+                let d1 = adiff(o1, n);
+                let e0 = (wd(o[0]), AspaAction::Withdraw(o[0].providers));
+                lemma_adiff_describes(o1, n);
+                assert(d == seq![e0] + d1);
+                assert(lt(o[0].customer, n[0].customer));
+                assert forall|k: Asn| #[trigger] dfind(d, k) == aspa_change(afind(o, k), afind(n, k)) by {
+                    lemma_dfind_cons(e0, d1, k);
+                    assert(dfind(d1, k) == aspa_change(afind(o1, k), afind(n, k)));
+                    if k == o[0].customer { lemma_afind_below(n, k); }
+                }
+                assert forall|x: Aspa| #[trigger] n.contains(x) implies lt(e0.0.customer, x.customer) by {
+                    lemma_contains_first(n, x);
+                }
+                lemma_adiff_sorted_step(d, e0, d1, o1, n);
+            }
+            Ordering::Equal => {
+                let d1 = adiff(o1, n1);
+                lemma_adiff_describes(o1, n1);
+                let c = n[0].customer;
+                assert(o[0].customer == c);
+                let t: Seq<(Aspa, AspaAction)> = if o[0].providers != n[0].providers {
+                    seq![(n[0], AspaAction::Update(o[0].providers))]
+                } else { Seq::empty() };
+                assert(d == t + d1);
+                if t.len() == 0 {
+                    assert(d =~= d1);
+                    assert forall|k: Asn| #[trigger] dfind(d, k) == aspa_change(afind(o, k), afind(n, k)) by {
+                        assert(dfind(d1, k) == aspa_change(afind(o1, k), afind(n1, k)));
+                    }
+                } else {
+                    let e0 = t[0];
+                    assert(t =~= seq![e0]);
+                    assert forall|k: Asn| #[trigger] dfind(d, k) == aspa_change(afind(o, k), afind(n, k)) by {
+                        lemma_dfind_cons(e0, d1, k);
+                        assert(dfind(d1, k) == aspa_change(afind(o1, k), afind(n1, k)));
+                    }
+                    // keys of d1 are above c
+                    assert forall|j: int| 0 <= j < d1.len() implies lt(c, #[trigger] d1[j].0.customer) by {
+                        let kj = d1[j].0.customer;
+                        assert(d1.contains(d1[j]));
+                        lemma_dfind_contains(d1, d1[j]);
+                        assert(dfind(d1, kj) == aspa_change(afind(o1, kj), afind(n1, kj)));
+                        if afind(o1, kj) is Some {
+                            lemma_afind_some(o1, kj);
+                            assert(o1.contains(afind(o1, kj)->Some_0));
+                        } else {
+                            lemma_afind_some(n1, kj);
+                            assert(n1.contains(afind(n1, kj)->Some_0));
+                        }
+                    }
+                    assert(d.len() == d1.len() + 1);
+                    assert forall|i: int, j: int| 0 <= i < j < d.len() implies lt(d[i].0.customer, d[j].0.customer) by {
+                        if i > 0 { assert(d[i] == d1[i - 1] && d[j] == d1[j - 1]); }
+                        else { assert(d[j] == d1[j - 1]); assert(d[0] == e0); }
+                    }
+                }
+            }
+            Ordering::Greater => {
+                let d1 = adiff(o, n1);
+                let e0 = (n[0], AspaAction::Announce);
+                lemma_adiff_describes(o, n1);
+                assert(d == seq![e0] + d1);
+                assert(lt(n[0].customer, o[0].customer));
+                assert forall|k: Asn| #[trigger] dfind(d, k) == aspa_change(afind(o, k), afind(n, k)) by {
+                    lemma_dfind_cons(e0, d1, k);
+                    assert(dfind(d1, k) == aspa_change(afind(o, k), afind(n1, k)));
+                    if k == n[0].customer { lemma_afind_below(o, k); }
+                }
+                assert forall|x: Aspa| #[trigger] o.contains(x) implies lt(e0.0.customer, x.customer) by {
+                    lemma_contains_first(o, x);
+                }
+                lemma_adiff_sorted_step(d, e0, d1, o, n1);
+            }
+        }
+    }
+}
+
+// sortedness of `[e0] + d1` when d1 describes a change between data sets whose customers are all above e0's
+proof fn lemma_adiff_sorted_step(d: Seq<(Aspa, AspaAction)>, e0: (Aspa, AspaAction), d1: Seq<(Aspa, AspaAction)>,
+                                 o: Seq<Aspa>, n: Seq<Aspa>)
+    requires
+        total_order::<Asn>(), d == seq![e0] + d1, adescribes(d1, o, n),
+        forall|x: Aspa| #[trigger] o.contains(x) ==> lt(e0.0.customer, x.customer),
+        forall|x: Aspa| #[trigger] n.contains(x) ==> lt(e0.0.customer, x.customer),
+    ensures dkeys_sorted(d),
+{
+    assert(d.len() == d1.len() + 1);
+    assert forall|i: int, j: int| 0 <= i < j < d.len() implies lt(d[i].0.customer, d[j].0.customer) by {
+        if i > 0 { assert(d[i] == d1[i - 1] && d[j] == d1[j - 1]); }
+        else {
+            let e = d1[j - 1];
+            assert(d[j] == e);
+            let kj = e.0.customer;
+            assert(d1.contains(e));
+            lemma_dfind_contains(d1, e);
+            assert(dfind(d1, kj) == aspa_change(afind(o, kj), afind(n, kj)));
+            if afind(o, kj) is Some {
+                lemma_afind_some(o, kj);
+                assert(o.contains(afind(o, kj)->Some_0));
+            } else {
+                lemma_afind_some(n, kj);
+                assert(n.contains(afind(n, kj)->Some_0));
+            }
+        }
+    }
+}
+
+// C11 (ASPA): there is exactly one change set describing the change from o to n
+proof fn lemma_adescribes_unique(d1: Seq<(Aspa, AspaAction)>, d2: Seq<(Aspa, AspaAction)>, o: Seq<Aspa>, n: Seq<Aspa>)
+    requires total_order::<Asn>(), adescribes(d1, o, n), adescribes(d2, o, n),
+    ensures d1 == d2,
+{
+    let key = |e: (Aspa, AspaAction)| e.0.customer;
+    assert(sorted_by(d1, key)) by {
+        assert forall|i: int, j: int| 0 <= i < j < d1.len() implies lt(key(d1[i]), key(d1[j])) by {}
+    }
+    assert(sorted_by(d2, key)) by {
+        assert forall|i: int, j: int| 0 <= i < j < d2.len() implies lt(key(d2[i]), key(d2[j])) by {}
+    }
+    assert forall|e: (Aspa, AspaAction)| d1.contains(e) <==> d2.contains(e) by {
+        lemma_dfind_contains(d1, e);
+        lemma_dfind_contains(d2, e);
+        assert(dfind(d1, e.0.customer) == aspa_change(afind(o, e.0.customer), afind(n, e.0.customer)));
+        assert(dfind(d2, e.0.customer) == aspa_change(afind(o, e.0.customer), afind(n, e.0.customer)));
+    }
+    lemma_sorted_unique(d1, d2, key);
+}
+
+// an ASPA of a sorted data set is the one found for its customer, and vice versa
+proof fn lemma_afind_contains(s: Seq<Aspa>, x: Aspa)
+    requires total_order::<Asn>(), asorted(s),
+    ensures s.contains(x) <==> afind(s, x.customer) == Some(x),
+    decreases s.len(),
+{
+    lemma_afind_some(s, x.customer);
+    if s.len() > 0 {
+        lemma_asorted_tail(s);
+        lemma_afind_contains(s.drop_first(), x);
+        lemma_contains_first(s, x);
+        if s[0].customer == x.customer && s.drop_first().contains(x) {
+            lemma_lt_asym(s[0].customer, x.customer);
+        }
+    }
+}
+
+// C11 (ASPA): the change set is empty exactly when the two data sets are equal
+proof fn lemma_adescribes_empty_iff_equal(d: Seq<(Aspa, AspaAction)>, o: Seq<Aspa>, n: Seq<Aspa>)
+    requires total_order::<Asn>(), asorted(o), asorted(n), adescribes(d, o, n),
+    ensures d.len() == 0 <==> o == n,
+{
+    if o == n && d.len() > 0 {
+        let e = d[0];
+        assert(d.contains(e));
+        lemma_dfind_contains(d, e);
+        assert(dfind(d, e.0.customer) == aspa_change(afind(o, e.0.customer), afind(n, e.0.customer)));
+    }
+    if d.len() == 0 {
+        let key = |x: Aspa| x.customer;
+        assert(sorted_by(o, key)) by {
+            assert forall|i: int, j: int| 0 <= i < j < o.len() implies lt(key(o[i]), key(o[j])) by {}
+        }
+        assert(sorted_by(n, key)) by {
+            assert forall|i: int, j: int| 0 <= i < j < n.len() implies lt(key(n[i]), key(n[j])) by {}
+        }
+        assert forall|x: Aspa| o.contains(x) <==> n.contains(x) by {
+            let k = x.customer;
+            lemma_afind_contains(o, x);
+            lemma_afind_contains(n, x);
+            lemma_afind_some(o, k);
+            lemma_afind_some(n, k);
+            assert(dfind(d, k) == aspa_change(afind(o, k), afind(n, k)));
+            assert(dfind(d, k) is None);
+        }
+        lemma_sorted_unique(o, n, key);
+    }
+}
+
+// C11 (ASPA): applying one change-set entry to what a data set holds for a customer
+spec fn aspa_apply(cur: Option<Aspa>, entry: Option<(Aspa, AspaAction)>) -> Option<Aspa> {
+    match entry {
+        None => cur,
+        Some(e) => match e.1 {
+            AspaAction::Announce => Some(e.0),
+            AspaAction::Update(_) => Some(e.0),
+            AspaAction::Withdraw(_) => None,
+        },
+    }
+}
+
+// C11 (ASPA): applying the change set to the old data set yields the new data set, customer by customer;
+// announcements and updates only carry ASPAs of the new set that the old set did not hold, withdrawals
+// only customers of the old set that the new set lacks
+spec fn aspa_applying_yields(o: Seq<Aspa>, d: Seq<(Aspa, AspaAction)>, n: Seq<Aspa>) -> bool {
+    forall|k: Asn| #[trigger] afind(n, k) == aspa_apply(afind(o, k), dfind(d, k))
+}
+
+proof fn lemma_adescribes_apply(d: Seq<(Aspa, AspaAction)>, o: Seq<Aspa>, n: Seq<Aspa>)
+    requires adescribes(d, o, n),
+    ensures aspa_applying_yields(o, d, n),
+{
+    assert forall|k: Asn| #[trigger] afind(n, k) == aspa_apply(afind(o, k), dfind(d, k)) by {
+        assert(dfind(d, k) == aspa_change(afind(o, k), afind(n, k)));
+        lemma_afind_some(o, k);
+        lemma_afind_some(n, k);
+    }
+}
+
+// ---------------------------------------------------------------- C12 for ASPAs
+// two successive actions on one customer combined; `np` is the provider set after the second one
+spec fn amrg_action(a: AspaAction, b: AspaAction, np: ProviderAsns) -> Option<AspaAction> {
+    match (a, b) {
+        (AspaAction::Announce, AspaAction::Announce) => Some(AspaAction::Announce),
+        (AspaAction::Announce, AspaAction::Update(_)) => Some(AspaAction::Announce),
+        (AspaAction::Announce, AspaAction::Withdraw(_)) => None,
+        (AspaAction::Update(p), AspaAction::Announce) => Some(AspaAction::Update(p)),
+        (AspaAction::Update(p), AspaAction::Update(_)) => if p == np { None } else { Some(AspaAction::Update(p)) },
+        (AspaAction::Update(p), AspaAction::Withdraw(_)) => Some(AspaAction::Withdraw(p)),
+        (AspaAction::Withdraw(p), AspaAction::Announce) => if p == np { None } else { Some(AspaAction::Update(p)) },
+        (AspaAction::Withdraw(p), AspaAction::Update(_)) => if p == np { None } else { Some(AspaAction::Update(p)) },
+        (AspaAction::Withdraw(p), AspaAction::Withdraw(_)) => Some(AspaAction::Withdraw(p)),
+    }
+}
+
+spec fn amrg_entry(ex: (Aspa, AspaAction), ey: (Aspa, AspaAction)) -> Seq<(Aspa, AspaAction)> {
+    match amrg_action(ex.1, ey.1, ey.0.providers) {
+        Some(a) => seq![(ey.0, a)],
+        None => Seq::empty(),
+    }
+}
+
+// the merge-join of two customer-sorted ASPA change sets as a recursive function
+spec fn amrg(x: Seq<(Aspa, AspaAction)>, y: Seq<(Aspa, AspaAction)>) -> Seq<(Aspa, AspaAction)>
+    decreases x.len() + y.len()
+{
+    if x.len() == 0 { y }
+    else if y.len() == 0 { x }
+    else {
+        match x[0].0.customer.cmp_spec(&y[0].0.customer) {
+            Ordering::Less => seq![x[0]] + amrg(x.drop_first(), y),
+            Ordering::Greater => seq![y[0]] + amrg(x, y.drop_first()),
+            Ordering::Equal => amrg_entry(x[0], y[0]) + amrg(x.drop_first(), y.drop_first()),
+        }
+    }
+}
+
+proof fn lemma_amrg_unfold(x: Seq<(Aspa, AspaAction)>, y: Seq<(Aspa, AspaAction)>)
+    ensures
+        x.len() == 0 ==> amrg(x, y) == y,
+        x.len() > 0 && y.len() == 0 ==> amrg(x, y) == x,
+        x.len() > 0 && y.len() > 0 && x[0].0.customer.cmp_spec(&y[0].0.customer) == Ordering::Less ==>
+            amrg(x, y) == seq![x[0]] + amrg(x.drop_first(), y),
+        x.len() > 0 && y.len() > 0 && x[0].0.customer.cmp_spec(&y[0].0.customer) == Ordering::Greater ==>
+            amrg(x, y) == seq![y[0]] + amrg(x, y.drop_first()),
+        x.len() > 0 && y.len() > 0 && x[0].0.customer.cmp_spec(&y[0].0.customer) == Ordering::Equal ==>
+            amrg(x, y) == amrg_entry(x[0], y[0]) + amrg(x.drop_first(), y.drop_first()),
+{
+}
+// what the merged change set says about one customer, given what the two change sets say
+spec fn amrg_found(ex: Option<(Aspa, AspaAction)>, ey: Option<(Aspa, AspaAction)>) -> Option<(Aspa, AspaAction)> {
+    match (ex, ey) {
+        (None, _) => ey,
+        (_, None) => ex,
+        (Some(a), Some(b)) => match amrg_action(a.1, b.1, b.0.providers) {
+            Some(act) => Some((b.0, act)),
+            None => None,
+        },
+    }
+}
+
+proof fn lemma_dkeys_tail(s: Seq<(Aspa, AspaAction)>)
+    requires total_order::<Asn>(), dkeys_sorted(s), s.len() > 0,
+    ensures
+        dkeys_sorted(s.drop_first()),
+        forall|e: (Aspa, AspaAction)| #[trigger] s.drop_first().contains(e) ==> lt(s[0].0.customer, e.0.customer),
+        dfind(s.drop_first(), s[0].0.customer) is None,
+{
+    let t = s.drop_first();
+    assert forall|i: int, j: int| 0 <= i < j < t.len() implies lt(t[i].0.customer, t[j].0.customer) by {
+        assert(t[i] == s[i + 1] && t[j] == s[j + 1]);
+    }
+    assert forall|e: (Aspa, AspaAction)| #[trigger] t.contains(e) implies lt(s[0].0.customer, e.0.customer) by {
+        let i = choose|i: int| 0 <= i < t.len() && t[i] == e;
+        assert(t[i] == s[i + 1]);
+    }
+    lemma_dfind_some(t, s[0].0.customer);
+    if let Some(e) = dfind(t, s[0].0.customer) {
+        assert(lt(s[0].0.customer, e.0.customer));
+        lemma_lt_asym(s[0].0.customer, e.0.customer);
+    }
+}
+
+// a customer below the first one has no entry in a sorted change set
+proof fn lemma_dfind_below(s: Seq<(Aspa, AspaAction)>, k: Asn)
+    requires total_order::<Asn>(), dkeys_sorted(s), s.len() > 0, lt(k, s[0].0.customer),
+    ensures dfind(s, k) is None,
+{
+    lemma_dfind_some(s, k);
+    if let Some(e) = dfind(s, k) {
+        lemma_contains_first(s, e);
+        lemma_dkeys_tail(s);
+        if e == s[0] { lemma_lt_asym(k, s[0].0.customer); }
+        else { assert(lt(s[0].0.customer, e.0.customer)); lemma_lt_asym(k, s[0].0.customer); }
+    }
+}
+
+// an entry found in a sorted change set has a customer at or above the first
+proof fn lemma_dfind_bound(s: Seq<(Aspa, AspaAction)>, k: Asn)
+    requires total_order::<Asn>(), dkeys_sorted(s), s.len() > 0, dfind(s, k) is Some,
+    ensures k == s[0].0.customer || lt(s[0].0.customer, k),
+{
+    lemma_dfind_some(s, k);
+    let e = dfind(s, k)->Some_0;
+    lemma_contains_first(s, e);
+    lemma_dkeys_tail(s);
+}
+
+proof fn lemma_amrg_found(x: Seq<(Aspa, AspaAction)>, y: Seq<(Aspa, AspaAction)>)
+    requires total_order::<Asn>(), dkeys_sorted(x), dkeys_sorted(y),
+    ensures
+        dkeys_sorted(amrg(x, y)),
+        forall|k: Asn| #[trigger] dfind(amrg(x, y), k) == amrg_found(dfind(x, k), dfind(y, k)),
+    decreases x.len() + y.len(),
+{
+    let m = amrg(x, y);
+    if x.len() == 0 {
+        assert forall|k: Asn| #[trigger] dfind(m, k) == amrg_found(dfind(x, k), dfind(y, k)) by {}
+    } else if y.len() == 0 {
+        assert forall|k: Asn| #[trigger] dfind(m, k) == amrg_found(dfind(x, k), dfind(y, k)) by {}
+    } else {
+        let x1 = x.drop_first();
+        let y1 = y.drop_first();
+        lemma_dkeys_tail(x);
+        lemma_dkeys_tail(y);
+        match x[0].0.customer.cmp_spec(&y[0].0.customer) {
+            Ordering::Less => {
+                let m1 = amrg(x1, y);
+                lemma_amrg_found(x1, y);
+                assert(m == seq![x[0]] + m1);
+                assert(lt(x[0].0.customer, y[0].0.customer));
+                assert forall|k: Asn| #[trigger] dfind(m, k) == amrg_found(dfind(x, k), dfind(y, k)) by {
+                    lemma_dfind_cons(x[0], m1, k);
+                    assert(dfind(m1, k) == amrg_found(dfind(x1, k), dfind(y, k)));
+                    if k == x[0].0.customer { lemma_dfind_below(y, k); }
+                }
+                assert forall|e: (Aspa, AspaAction)| #[trigger] y.contains(e) implies lt(x[0].0.customer, e.0.customer) by {
+                    lemma_contains_first(y, e);
+                }
+                lemma_amrg_sorted_step(m, x[0], m1, x1, y);
+            }
+            Ordering::Greater => {
+                let m1 = amrg(x, y1);
+                lemma_amrg_found(x, y1);
+                assert(m == seq![y[0]] + m1);
+                assert(lt(y[0].0.customer, x[0].0.customer));
+                assert forall|k: Asn| #[trigger] dfind(m, k) == amrg_found(dfind(x, k), dfind(y, k)) by {
+                    lemma_dfind_cons(y[0], m1, k);
+                    assert(dfind(m1, k) == amrg_found(dfind(x, k), dfind(y1, k)));
+                    if k == y[0].0.customer { lemma_dfind_below(x, k); }
+                }
+                assert forall|e: (Aspa, AspaAction)| #[trigger] x.contains(e) implies lt(y[0].0.customer, e.0.customer) by {
+                    lemma_contains_first(x, e);
+                }
+                lemma_amrg_sorted_step(m, y[0], m1, x, y1);
+            }
+            Ordering::Equal => {
+                let m1 = amrg(x1, y1);
+                lemma_amrg_found(x1, y1);
+                let c = y[0].0.customer;
+                assert(x[0].0.customer == c);
+                let t = amrg_entry(x[0], y[0]);
+                assert(m == t + m1);
+                if t.len() == 0 {
+                    assert(m =~= m1);
+                    assert forall|k: Asn| #[trigger] dfind(m, k) == amrg_found(dfind(x, k), dfind(y, k)) by {
+                        assert(dfind(m1, k) == amrg_found(dfind(x1, k), dfind(y1, k)));
+                    }
+                } else {
+                    let e0 = t[0];
+                    assert(t =~= seq![e0]);
+                    assert(e0.0 == y[0].0);
+                    assert forall|k: Asn| #[trigger] dfind(m, k) == amrg_found(dfind(x, k), dfind(y, k)) by {
+                        lemma_dfind_cons(e0, m1, k);
+                        assert(dfind(m1, k) == amrg_found(dfind(x1, k), dfind(y1, k)));
+                    }
+                    lemma_amrg_sorted_step(m, e0, m1, x1, y1);
+                }
+            }
+        }
+    }
+}
+
+// sortedness of `[e0] + m1` when every entry of m1 stems from x or y and all their customers are above e0's
+proof fn lemma_amrg_sorted_step(m: Seq<(Aspa, AspaAction)>, e0: (Aspa, AspaAction), m1: Seq<(Aspa, AspaAction)>,
+                                x: Seq<(Aspa, AspaAction)>, y: Seq<(Aspa, AspaAction)>)
+    requires
+        total_order::<Asn>(), m == seq![e0] + m1, dkeys_sorted(m1),
+        forall|k: Asn| #[trigger] dfind(m1, k) == amrg_found(dfind(x, k), dfind(y, k)),
+        forall|e: (Aspa, AspaAction)| #[trigger] x.contains(e) ==> lt(e0.0.customer, e.0.customer),
+        forall|e: (Aspa, AspaAction)| #[trigger] y.contains(e) ==> lt(e0.0.customer, e.0.customer),
+    ensures dkeys_sorted(m),
+{
+    assert(m.len() == m1.len() + 1);
+    assert forall|i: int, j: int| 0 <= i < j < m.len() implies lt(m[i].0.customer, m[j].0.customer) by {
+        if i > 0 { assert(m[i] == m1[i - 1] && m[j] == m1[j - 1]); }
+        else {
+            let e = m1[j - 1];
+            assert(m[j] == e);
+            let kj = e.0.customer;
+            assert(m1.contains(e));
+            lemma_dfind_contains(m1, e);
+            assert(dfind(m1, kj) == amrg_found(dfind(x, kj), dfind(y, kj)));
+            lemma_dfind_some(x, kj);
+            lemma_dfind_some(y, kj);
+            if dfind(x, kj) is Some { assert(x.contains(dfind(x, kj)->Some_0)); }
+            else { assert(y.contains(dfind(y, kj)->Some_0)); }
+        }
+    }
+}
+
+// C12 (ASPA), for one customer: combining the change a -> b with the change b -> c gives the change a -> c
+proof fn lemma_amrg_change(a: Option<Aspa>, b: Option<Aspa>, c: Option<Aspa>, k: Asn)
+    requires
+        a matches Some(x) ==> x.customer == k,
+        b matches Some(x) ==> x.customer == k,
+        c matches Some(x) ==> x.customer == k,
+    ensures amrg_found(aspa_change(a, b), aspa_change(b, c)) == aspa_change(a, c),
+{
+}
+
+// C12 (ASPA): merging the change set from a to b with the change set from b to c gives the change
+// set from a to c
+proof fn lemma_amrg_describes(x: Seq<(Aspa, AspaAction)>, y: Seq<(Aspa, AspaAction)>, a: Seq<Aspa>, b: Seq<Aspa>, c: Seq<Aspa>)
+    requires total_order::<Asn>(), adescribes(x, a, b), adescribes(y, b, c),
+    ensures adescribes(amrg(x, y), a, c),
+{
+    let m = amrg(x, y);
+    lemma_amrg_found(x, y);
+    assert forall|k: Asn| #[trigger] dfind(m, k) == aspa_change(afind(a, k), afind(c, k)) by {
+        assert(dfind(m, k) == amrg_found(dfind(x, k), dfind(y, k)));
+        assert(dfind(x, k) == aspa_change(afind(a, k), afind(b, k)));
+        assert(dfind(y, k) == aspa_change(afind(b, k), afind(c, k)));
+        lemma_afind_some(a, k);
+        lemma_afind_some(b, k);
+        lemma_afind_some(c, k);
+        lemma_amrg_change(afind(a, k), afind(b, k), afind(c, k), k);
+    }
+}
+
+// ================================================================ PayloadDelta
+// assumptions on the rpki payload types: their derived Ord is a strict total order whose Equal
+// is ==, and the derived Clone of AspaAction returns an equal value
+spec fn payload_types_ok() -> bool {
+    &&& total_order::<RouteOrigin>()
+    &&& total_order::<RouterKey>()
+    &&& total_order::<Asn>()
+    &&& clone_exact::<AspaAction>()
+}
+
+// the snapshot invariant the delta code relies on: each data set is strictly sorted (ASPAs: by customer)
+spec fn snap_sorted(s: &PayloadSnapshot) -> bool {
+    &&& ssorted(s.origins_spec())
+    &&& ssorted(s.router_keys_spec())
+    &&& asorted(s.aspas_spec())
+}
+
+impl PayloadDelta {
+    spec fn is_empty_spec(&self) -> bool {
+        self.origins.items@.len() == 0 && self.router_keys.items@.len() == 0 && self.aspas.items@.len() == 0
+    }
+    spec fn counted(&self) -> bool {
+        self.origins.counted() && self.router_keys.counted() && self.aspas.counted()
+    }
+    // C11/C12: this change set is exactly the change from data set a to data set b
+    spec fn describes(&self, a: &PayloadSnapshot, b: &PayloadSnapshot) -> bool {
+        &&& describes_change(self.origins.items@, a.origins_spec(), b.origins_spec())
+        &&& describes_change(self.router_keys.items@, a.router_keys_spec(), b.router_keys_spec())
+        &&& adescribes(self.aspas.items@, a.aspas_spec(), b.aspas_spec())
+    }
+}
+
+// what a `.map(|item| item.0)` adapter over a snapshot accessor will yield: a prefix of the data set
+proof fn lemma_map_prefix<T: Ord>(inner: Seq<(&T, &PayloadInfo)>, mapped: Seq<&T>, full: Seq<T>)
+    requires
+        total_order::<T>(),
+        ssorted(full),
+        pair_firsts(inner).is_prefix_of(full),
+        mapped.len() <= inner.len(),
+        forall|k: int| 0 <= k < mapped.len() ==> #[trigger] mapped[k] == inner[k].0,
+    ensures
+        ssorted(deref_seq(mapped)),
+        mapped.len() <= full.len(),
+        mapped.len() == inner.len() && pair_firsts(inner) == full ==> deref_seq(mapped) =~= full,
+{
+    let m = deref_seq(mapped);
+    assert forall|i: int| 0 <= i < m.len() implies #[trigger] m[i] == full[i] by {
+        assert(m[i] == *mapped[i]);
+        assert(pair_firsts(inner)[i] == *inner[i].0);
+        assert(pair_firsts(inner)[i] == full[i]);
+    }
+    assert forall|i: int, j: int| 0 <= i < j < m.len() implies lt(m[i], m[j]) by {
+        assert(m[i] == full[i] && m[j] == full[j]);
+    }
 }
